@@ -253,8 +253,13 @@ func (pw *proofWorld) mutate(nodes [][]byte, kind string) [][]byte {
 	return out
 }
 
-// claimJSON builds the eth_getProof-shaped JSON of a row.
-func (pw *proofWorld) claimJSON(r *Row) []byte {
+// headerCarrier: routers whose claims travel with their header (quorum).
+type headerCarrier interface {
+	ClaimHeader(h uint64, world string, root ecommon.Hash) []byte
+}
+
+// claimJSON builds the eth_getProof-shaped JSON of a row; also returns the state root the prover used.
+func (pw *proofWorld) claimJSON(r *Row) ([]byte, ecommon.Hash) {
 	var S *stateTries
 	switch r.R.W {
 	case "fork":
@@ -264,6 +269,12 @@ func (pw *proofWorld) claimJSON(r *Row) []byte {
 	default:
 		if r.R.H >= pw.cfg.G0 && r.R.H <= pw.cfg.Best {
 			S = pw.canon[r.R.H]
+		} else if _, hdrMode := pw.chain.(headerCarrier); hdrMode && r.R.H > pw.cfg.Best {
+			st := pw.stPre
+			if r.R.H >= pw.cfg.DepositAt {
+				st = pw.stDep
+			}
+			S = pw.mkState(r.R.H, st, r.R.H, true) // header mode: the canonical state of any height
 		} else {
 			S = pw.canon[pw.cfg.Best]
 		}
@@ -308,7 +319,7 @@ func (pw *proofWorld) claimJSON(r *Row) []byte {
 	}
 	b, err := json.Marshal(p)
 	vio.Must(err)
-	return b
+	return b, S.root
 }
 
 type rowResult struct {
@@ -366,7 +377,8 @@ func proofTable(args []string) {
 		pw.chain = newChainDriver(r, seed)
 		sb := pw.chain.Install(pw.ccm, cfg.Wait, roots, cfg.G0, cfg.Best, cfg.ForkAt, pw.fork.root)
 		// the world the rows talk about must really be there
-		for h := cfg.G0; h <= cfg.Best; h++ {
+		_, hdrMode := pw.chain.(headerCarrier)
+		for h := cfg.G0; h <= cfg.Best && !hdrMode; h++ {
 			got, ok := pw.chain.CanonRoot(h)
 			if !ok || got != roots[h] {
 				fmt.Fprintf(os.Stderr, "world check failed: canonical root at %d: ok=%v\n", h, ok)
@@ -374,9 +386,12 @@ func proofTable(args []string) {
 			}
 		}
 		for _, row := range rows {
-			claim := pw.claimJSON(row)
+			claim, proverRoot := pw.claimJSON(row)
 			msg := pw.msgs[row.R.M]
 			ep := &scom.EntranceParam{SourceChainID: sideChainID, Height: uint32(row.R.H), Proof: claim, RelayerAddress: opAccount.Address[:], Extra: msg}
+			if hc, ok := pw.chain.(headerCarrier); ok {
+				ep.HeaderOrCrossChainMsg = hc.ClaimHeader(row.R.H, row.R.W, proverRoot)
+			}
 			sink := common.NewZeroCopySink(nil)
 			ep.Serialization(sink)
 			sb.Cache.Reset()
